@@ -187,6 +187,18 @@ V("c08c-channel-right-factor-not-transposed", "C08", {"rule": "C08c", "contains"
   (GSTEPS, "    state.xpxp_covariance_matrix = (\n        embedded_X @ covariance_matrix @ embedded_X.T + embedded_Y\n    )", "    state.xpxp_covariance_matrix = (\n        embedded_X @ covariance_matrix @ embedded_X + embedded_Y\n    )"))
 V("c08c-channel-congruence-through-local", "C08", "silent",
   (GSTEPS, "    state.xpxp_covariance_matrix = (\n        embedded_X @ covariance_matrix @ embedded_X.T + embedded_Y\n    )", "    transformed = embedded_X @ covariance_matrix @ embedded_X.T\n    state.xpxp_covariance_matrix = transformed + embedded_Y"))
+V("c09g-traced-exponent-factors-swapped", "C09", {"rule": "C09g", "contains": "get_phaseshifter_expectation_value"},
+  (GSTATE, "            solved = np.linalg.solve(M, mean)\n            exponent = -(np.conj(mean) @ A @ solved)", "            exponent = -(np.conj(mean) @ np.linalg.solve(M, A @ mean))"))
+V("c09g-traced-exponent-in-one-expression", "C09", "silent",
+  (GSTATE, "            solved = np.linalg.solve(M, mean)\n            exponent = -(np.conj(mean) @ A @ solved)", "            exponent = -(np.conj(mean) @ A @ np.linalg.solve(M, mean))"))
+V("c09g-traced-exponent-explicit-inverse", "C09", "silent",
+  (GSTATE, "            solved = np.linalg.solve(M, mean)\n            exponent = -(np.conj(mean) @ A @ solved)", "            exponent = -(np.conj(mean) @ A @ np.linalg.inv(M) @ mean)"))
+V("c09g-traced-kernel-covariance-on-the-other-side", "C09", {"rule": "C09g", "contains": "get_phaseshifter_expectation_value"},
+  (GSTATE, "            M = cov @ A + B\n", "            M = A @ cov + B\n"))
+V("c09g-traced-kernel-wrong-diagonal", "C09", {"rule": "C09g", "contains": "get_phaseshifter_expectation_value"},
+  (GSTATE, "            B = np.diag(one_plus_z / 2)\n", "            B = np.diag(one_minus_z / 2)\n"))
+V("c09g-eager-kernel-sign", "C09", {"rule": "C09g", "contains": "get_phaseshifter_expectation_value"},
+  (GSTATE, "        cov_D_phi = (cov + 1j * D_phi) / 2\n", "        cov_D_phi = (cov - 1j * D_phi) / 2\n"))
 # ------------------------------------------------------------------------------------------- C20
 V("c20-sub-add", "C20", {"rule": "C20c", "contains": "Sub"}, (EXPR, "ast.Sub: op.sub", "ast.Sub: op.add"))
 V("c20-lt-le", "C20", {"rule": "C20c", "contains": "Lt"}, (EXPR, "ast.Lt: op.lt", "ast.Lt: op.le"))
